@@ -101,6 +101,17 @@ class Evaluator(object):
         if isinstance(t, TTuple) and isinstance(sv.t, TTuple) and len(t.items) == len(sv.t.items):
             items = (sv.meta or {}).get("tuple_items") or [SV(sv.t.proj(cx, sv.e, i), ti) for i, ti in enumerate(sv.t.items)]
             return SV(t.mk(cx, [self.coerce(it, ti, what, st).e for it, ti in zip(items, t.items)]), t)
+        if isinstance(t, TTuple) and isinstance(sv.t, TSeq) and st is not None:
+            # tuple(<list>) flowing into a tuple slot of fixed arity: the list must provably have that many items
+            o = sv.t.ops(cx)
+            g = o["len"](sv.e) == len(t.items)
+            if self.guards:
+                g = z3.Implies(z3.And(*self.guards), g)
+            if not self.spec:
+                self.fx.oblig("narrow", st, g, "-", "%s has %d items" % (what, len(t.items)))
+            st.assume(g)
+            parts = [self.coerce(SV(o["nth"](sv.e, z3.IntVal(i)), sv.t.elem), ti, what, st).e for i, ti in enumerate(t.items)]
+            return SV(t.mk(cx, parts), t)
         if isinstance(t, TMap) and isinstance(sv.t, TMap) and sv.meta and sv.meta.get("empty_set"):
             return SV(z3.K(t.k.sort(cx), z3.BoolVal(False)), t)
         if isinstance(t, TMap) and isinstance(sv.t, TMap) and t.sort(cx) == sv.t.sort(cx):
@@ -119,9 +130,18 @@ class Evaluator(object):
             if isinstance(sv.t, TInt):
                 return SV(cx.val_of_int(sv.e), t)
             if isinstance(sv.t, TStr):
+                if not getattr(cx, "_val_str_axioms", False):
+                    cx._val_str_axioms = True
+                    x, y = z3.Consts("x!v y!v", cx.Str)
+                    # a str is never None / True / False, and two strs are the same value only if they are the same string
+                    cx.axiom("val.str.tag", z3.ForAll([x], z3.And(*[cx.val_of_str(x) != cx.val_const(n) for n in ("None", "True", "False")]), patterns=[cx.val_of_str(x)]))
+                    cx.axiom("val.str.inj", z3.ForAll([x, y], z3.Implies(cx.val_of_str(x) == cx.val_of_str(y), x == y), patterns=[z3.MultiPattern(cx.val_of_str(x), cx.val_of_str(y))]))
                 return SV(cx.val_of_str(sv.e), t)
             if isinstance(sv.t, TOpt) and isinstance(sv.t.inner, TVal):
                 return SV(z3.If(sv.t.is_none(cx, sv.e), cx.val_const("None"), sv.t.get(cx, sv.e)), t)
+            if isinstance(sv.t, TOpt) and isinstance(sv.t.inner, (TStr, TInt, TBool)):
+                inner = self.coerce(SV(sv.t.get(cx, sv.e), sv.t.inner), t, what, st)
+                return SV(z3.If(sv.t.is_none(cx, sv.e), cx.val_const("None"), inner.e), t)
         if isinstance(t, TTuple) and isinstance(sv.t, TTuple) and len(t.items) == len(sv.t.items):
             parts = [self.coerce(SV(sv.t.proj(cx, sv.e, i), sv.t.items[i]), t.items[i], what, st).e for i in range(len(t.items))]
             return SV(t.mk(cx, parts), t)
@@ -226,10 +246,11 @@ class Evaluator(object):
 
     def ev_Tuple(self, node, st):
         items = [self.ev(e, st) for e in node.elts]
-        if any(isinstance(i.t, TNone) for i in items):
-            raise Outside("None inside tuple literal needs a declared type")
-        t = TTuple([i.t for i in items])
-        return SV(t.mk(self.cx, [i.e for i in items]), t, {"tuple_items": items})
+        # a None item gets its type from the slot the tuple flows into (coerce re-types the literal item by item: tuple_items); until then it is a
+        # None of an opaque optional
+        raw = [SV(TOpt(TObj()).none(self.cx), TOpt(TObj())) if isinstance(i.t, TNone) else i for i in items]
+        t = TTuple([i.t for i in raw])
+        return SV(t.mk(self.cx, [i.e for i in raw]), t, {"tuple_items": items})
 
     def ev_List(self, node, st):
         if not node.elts:
